@@ -324,3 +324,6 @@ Print Assumptions c08_code_read_limit.
 Print Assumptions c08_code_read_unlimit.
 Print Assumptions c08_code_length_is_model.
 Print Assumptions c08_code_close_is_model.
+Theorem c08_code_left_usize : forall left, left < 18446744073709551616 -> gen_read_left_usize left = left.
+Proof. exact gen_read_left_usize_spec. Qed.
+Print Assumptions c08_code_left_usize.
